@@ -77,7 +77,7 @@ Definition setup_core (h : hdr) (g : grid) (dflt smode : Z) : res (hdr * grid * 
     let start := h_start h in
     let n := g_n g in
     let '(e0, e1, e2) := add_v3 start n in
-    if negb (in_int e0 && in_int e1 && in_int e2) then Trap else
+    if negb (fits_int e0 && fits_int e1 && fits_int e2) then Trap else
     let reorder := smode =? 2 in
     let start' := if reorder then (0, 0, 0) else start in
     let hstart := if reorder then (sel start (sel pos 0), sel start (sel pos 1), sel start (sel pos 2))
